@@ -15,14 +15,34 @@ logging.disable(logging.CRITICAL)
 def _child(name, thorough):
     sys.unraisablehook = lambda *a: None      # loops finalised twice at interpreter shutdown: stderr noise only
     try:
+        from scenarios.props import directed
+        pr = directed.run(name)
+        if pr:
+            print('aio_props %s: directed scenarios' % name.upper())
+            for x in pr[:5]:
+                print('PROBLEM:', x)
+            sys.stdout.flush()
+            os._exit(1)
         m = importlib.import_module('scenarios.props.' + name)
         rc = m.main(thorough)
     except SystemExit as e:
         rc = e.code if isinstance(e.code, int) else 3
-    except BaseException:
+    except BaseException as e:
         import traceback
         traceback.print_exc()
         rc = 3
+        msgs = []
+        x = e
+        while x is not None:
+            msgs.append('%s: %s' % (type(x).__name__, x))
+            x = x.__context__ or x.__cause__
+        stuck = [m for m in msgs if m.startswith('HarnessError') and
+                 ('did not report back within' in m or 'loop threads did not terminate' in m)]
+        if stuck:
+            # a loop thread that runs the code under test never came back to the scheduler of the harness: the call
+            # it runs spins or blocks (same verdict as the wall-clock watchdog below, reached earlier)
+            print('PROBLEM: a call in the code under test never completes or spins: %s' % stuck[-1][:600])
+            rc = 1
     sys.stdout.flush()
     sys.stderr.flush()
     os._exit(rc if isinstance(rc, int) else 3)
